@@ -338,62 +338,82 @@ impl ChannelManager {
       );
     }
 
-    // Get the NID of the new member.
-    let new_member_nid = {
-      match oh_behalf_nid {
-        Some(oh_behalf_nid) => {
-          // Ensure the client is authorized to join the channel on behalf of another user.
-          if !channel_inner.is_owner(&nid) {
-            return Err(narwhal_protocol::Error::new(Forbidden).with_id(correlation_id).into());
-          }
+    // Admit the new member. A refusal must leave no trace: a channel created by this very request
+    // is released again, and a membership whose announcement failed is rolled back.
+    let admission: anyhow::Result<Nid> = 'admission: {
+      // Get the NID of the new member.
+      let new_member_nid = {
+        match oh_behalf_nid {
+          Some(oh_behalf_nid) => {
+            // Ensure the client is authorized to join the channel on behalf of another user.
+            if !channel_inner.is_owner(&nid) {
+              break 'admission Err(narwhal_protocol::Error::new(Forbidden).with_id(correlation_id).into());
+            }
 
-          if !router.c2s_router().has_connection(&oh_behalf_nid.username) {
-            return Err(narwhal_protocol::Error::new(UserNotRegistered).with_id(correlation_id).into());
-          }
+            if !router.c2s_router().has_connection(&oh_behalf_nid.username) {
+              break 'admission Err(narwhal_protocol::Error::new(UserNotRegistered).with_id(correlation_id).into());
+            }
 
-          oh_behalf_nid.clone()
-        },
-        None => nid.clone(),
+            oh_behalf_nid.clone()
+          },
+          None => nid.clone(),
+        }
+      };
+      // Check if the new member is allowed to join the channel.
+      let acl = &channel_inner.acl;
+
+      if !acl.is_join_allowed(&new_member_nid) {
+        break 'admission Err(narwhal_protocol::Error::new(NotAllowed).with_id(correlation_id).into());
       }
+
+      // Insert the member into the channel in case it is not already a member
+      // and the channel is not full, and notify all members about the new member.
+      let config = &channel_inner.config;
+
+      if channel_inner.is_member(&new_member_nid) {
+        break 'admission Err(narwhal_protocol::Error::new(UserInChannel).with_id(correlation_id).into());
+      } else if channel_inner.member_count() >= config.max_clients as usize {
+        break 'admission Err(narwhal_protocol::Error::new(ChannelIsFull).with_id(correlation_id).into());
+      }
+      // Check if the maximum number of subscriptions is reached.
+      if let Some(in_channels) = in_channels.get(&new_member_nid.username)
+        && in_channels.len() >= max_channels_per_client as usize
+      {
+        break 'admission Err(
+          narwhal_protocol::Error::new(PolicyViolation)
+            .with_id(correlation_id)
+            .with_detail("subscription limit reached")
+            .into(),
+        );
+      }
+
+      channel_inner.insert_member(new_member_nid.clone());
+
+      if let Err(e) = channel_inner
+        .notify_member_joined(
+          &new_member_nid,
+          Some(transmitter.resource()),
+          as_owner,
+          router.c2s_router().local_domain().clone(),
+        )
+        .await
+      {
+        channel_inner.remove_member(&new_member_nid);
+        break 'admission Err(e);
+      }
+
+      Ok(new_member_nid)
     };
-    // Check if the new member is allowed to join the channel.
-    let acl = &channel_inner.acl;
 
-    if !acl.is_join_allowed(&new_member_nid) {
-      return Err(narwhal_protocol::Error::new(NotAllowed).with_id(correlation_id).into());
-    }
-
-    // Insert the member into the channel in case it is not already a member
-    // and the channel is not full, and notify all members about the new member.
-    let config = &channel_inner.config;
-
-    if channel_inner.is_member(&new_member_nid) {
-      return Err(narwhal_protocol::Error::new(UserInChannel).with_id(correlation_id).into());
-    } else if channel_inner.member_count() >= config.max_clients as usize {
-      return Err(narwhal_protocol::Error::new(ChannelIsFull).with_id(correlation_id).into());
-    }
-    // Check if the maximum number of subscriptions is reached.
-    if let Some(in_channels) = in_channels.get(&new_member_nid.username)
-      && in_channels.len() >= max_channels_per_client as usize
-    {
-      return Err(
-        narwhal_protocol::Error::new(PolicyViolation)
-          .with_id(correlation_id)
-          .with_detail("subscription limit reached")
-          .into(),
-      );
-    }
-
-    channel_inner.insert_member(new_member_nid.clone());
-
-    channel_inner
-      .notify_member_joined(
-        &new_member_nid,
-        Some(transmitter.resource()),
-        as_owner,
-        router.c2s_router().local_domain().clone(),
-      )
-      .await?;
+    let new_member_nid = match admission {
+      Ok(new_member_nid) => new_member_nid,
+      Err(e) => {
+        if as_owner {
+          channels.remove(&handler);
+        }
+        return Err(e);
+      },
+    };
     drop(channel_inner);
 
     // Update the list of channels the connection is a member of.
